@@ -36,6 +36,16 @@ CHECKS["C09"] = dict(
          "answers; the requested p vectors are read from the recorded choice() calls.",
     ref="§4 C09")
 
+CHECKS["C19"] = dict(
+    technique="Coq proof by induction (polymorphic rows; Model/Atoms.v, Props/C19.v) + functional correspondence on real "
+              "ase.Atoms / reinsert_atoms / search_molecules, with an independent union-find as differential oracle",
+    text="Theorems for every row type, list length and duplicate-free in-range index list in any order: "
+         "reinsert(delete L I, select L I, I) = L (dtype tag included); label glue: admitted components get one "
+         "non-negative label each, distinct across components, everything else keeps any supplied default. Three stages of "
+         "delete/slice/reinsert on real Atoms are compared row-by-row with the model; labels are compared (up to renaming) "
+         "with the model fed by independently computed components. Connected components themselves are a trusted external.",
+    ref="§4 C19")
+
 NA_REASON = "check not built yet in this round (see DESIGN.md §8 order of construction); no weaker technique substituted"
 
 
